@@ -3,7 +3,10 @@ from ..core import operand_locals
 from ..expr import expr_of_operand, call_arg_exprs, evaluate
 from . import common as cm
 from . import consts
-from ..inline import PRIMITIVE_MODULES
+
+# modules whose public functions read / write the wire formats (combined-mode boxes, signed messages)
+FRAMED_MODULES = ("classic::crypto_box::", "classic::crypto_secretbox::", "classic::crypto_sign::",
+                  "dryocbox::", "dryocsecretbox::", "sign::")
 
 EXPLANATION = (
     "CONST: every constants::NAME with a namesake in the vendored libsodium-sys bindings has the same "
@@ -62,8 +65,8 @@ def _delegated_cuts(prog, v, depth, only_root=None):
         if len(ts) != 1:
             continue
         g = ts[0]
-        if g.path.startswith(PRIMITIVE_MODULES):
-            continue        # how a primitive serialises its own output is not wire framing
+        if g.vis != "pub" or not g.path.lstrip("<").startswith(FRAMED_MODULES):
+            continue        # only the wire-format API layer frames; how a primitive lays out its own operands is not framing
         for i, a in enumerate(c.args):
             if a.get("k") not in ("copy", "move") or a["p"]:
                 continue
@@ -78,7 +81,7 @@ def _delegated_cuts(prog, v, depth, only_root=None):
     return out
 
 
-def boundaries(prog, f, _depth=0):
+def boundaries(prog, f, delegate=False):
     """constant cut offsets (absolute within the buffer being framed: `split_at(32)` then
     `.1.split_at(16)` cuts at 32 and 48, like `[..32]`/`[32..48]`/`[48..]`) and rotations, on the view of
     f with its private helpers folded in"""
@@ -90,7 +93,8 @@ def boundaries(prog, f, _depth=0):
     # framing is compositional: a (sub-)view handed to another framed crate function is cut there;
     # `seal_open` cutting at 32 and passing [32..] to `crypto_box_open_easy` (which cuts at 16) frames
     # the wire exactly like a `seal_open` that cuts at 32 and 48 itself
-    offs |= _delegated_cuts(prog, v, _depth)
+    if delegate:
+        offs |= _delegated_cuts(prog, v, 0)
     folded = set(getattr(v, "inlined", []))
     for g in [v] + [u for u in prog.unit(f) if u.key != f.key and u.path not in folded]:
         for c in g.calls():
@@ -126,8 +130,8 @@ def run(ctx, rep):
             rep.violation("ANCHOR", name, "writer/reader pair not found: %s / %s" % (w, r))
             continue
         npairs += 1
-        wo, wr = boundaries(prog, wf[0])
-        ro, rr = boundaries(prog, rf[0])
+        wo, wr = boundaries(prog, wf[0], delegate=True)
+        ro, rr = boundaries(prog, rf[0], delegate=True)
         rep.ob("FRAMING", name + "|writer=reader", wo & set(range(1, 200)) == ro & set(range(1, 200)) or (want <= wo and want <= ro and (wo - want) == (ro - want)),
                "boundary offsets writer %s reader %s" % (sorted(wo), sorted(ro)), loc=wf[0].loc())
         rep.ob("FRAMING", name + "|libsodium", want <= wo and want <= ro,
@@ -142,9 +146,9 @@ def run(ctx, rep):
     fs = cm.find_method(prog, "dryocbox::DryocBox", "from_sealed_bytes")
     if tb and fb and fs:
         npairs += 1
-        to, _ = boundaries(prog, tb[0])
-        bo, _ = boundaries(prog, fb[0])
-        so, _ = boundaries(prog, fs[0])
+        to, _ = boundaries(prog, tb[0], delegate=True)
+        bo, _ = boundaries(prog, fb[0], delegate=True)
+        so, _ = boundaries(prog, fs[0], delegate=True)
         rep.ob("FRAMING", "DryocBox bytes|plain", {16} <= to and bo == {16}, "to_bytes %s from_bytes %s" % (sorted(to), sorted(bo)), loc=fb[0].loc())
         rep.ob("FRAMING", "DryocBox bytes|sealed", {32, 48} <= to and so == {32, 48}, "to_bytes %s from_sealed_bytes %s" % (sorted(to), sorted(so)), loc=fs[0].loc())
     else:
